@@ -345,6 +345,17 @@ theorem heap_overwrite_detaches_partial (h h' : Heap) (rank : Addr → Nat) (roo
     (∀ v, Apart h v y → ¬ Reach h v x → addAtSegsH h root segs v = some h' → Apart h' root y) :=
   pathwrite_detaches hr hm hs ha hl hplain hy
 
+/-- … the same for handles sitting in LIST SLOTS, when the slot is overwritten / the list cleared through
+    the list (`ListBuilder.Set` / `MustSet` / `Clear` on a list `l` of the tree-shaped document): the
+    item `y` that was stored in slot `i` is detached from the whole document. -/
+theorem heap_list_overwrite_detaches (h h' : Heap) (rank : Addr → Nat) (root l y v : Addr) (xs : List Addr) (i : Nat)
+    (hr : h.RankedBy rank) (hs : SibSep h root) (hrl : Reach h root l) (hg : h.get? l = some (.list xs))
+    (hy : xs[i]? = some y) :
+    (Apart h v y → ¬ Reach h v l → Ytk.Heap.listSet h l i v = some h' → Apart h' root y) ∧
+    (Apart h v y → ¬ Reach h v l → listMustSetH h l i v = .ok h' → Apart h' root y) ∧
+    (listClear h l = some h' → Apart h' root y) :=
+  listwrite_detaches hr hs hrl hg hy
+
 /-- INVARIANT of one call: closed, acyclic, sorted maps, nil leaf — provided the call is made on an
     existing cell and the node it attaches (if any) exists and reaches no container / list of the graph
     below the handle (`HOp.Ok`; in particular it does not reach the cell it is stored in). -/
